@@ -19,6 +19,7 @@ RULE = (
     "32768, or a unit-dependent range, or an enum member with non-zero value"
     ' Also (added while the seeded-change rounds of DESIGN section 9 ran): Also: the CVAL both writers put into the file and what loading gives back (ends, middle, -2..1, 255/256, 32767/32768; every value of no-offset ranges), mapped MetaModule user controllers holding a value of their own, encodings with the strictness flag off, and all axes again after user subclasses were derived.'
 )
+RULE += " Rounds 12-14 of DESIGN section 9 added: mapped user-defined controllers also onto compact, 0..32768 and no-offset targets; their pattern value equals the mapped controller's own."
 ASSUMPTIONS = [
     "the YAML bounds (min/max/compact/no_offset/ranges) are the declared ranges",
     "values are assigned with setattr in strict mode; stored values observed with Module.get_raw / set_raw; pattern values with Controller.pattern_value",
